@@ -10,8 +10,6 @@ package client
 // entered with the mutex free and leave it free (getTable is called with it held).
 //@ guarded Client.mu: tables, forceFailureErr, itemCollectionMetrics, useNativeInterpreter, nativeInterpreter, langInterpreter
 
-//@ func (*Client).getTable
-//@   lockheld
 
 // ---- C15: emulated failures ---------------------------------------------------------------------
 // While a failure is configured, every data method returns exactly that error and changes nothing.
@@ -241,3 +239,60 @@ package client
 //@   ensures[C10] dom(result) == dom(input)
 //@   loop 1:
 //@     invariant fresh(output) && output != nil && dom(output) == visited
+
+// ---- C18: table lifecycle ------------------------------------------------------------------------------
+//@ func (*Client).getTable
+//@   lockheld
+//@   requires fd != nil
+//@   ensures[C18] (result1 == nil) == (tableName in fd.tables)
+//@   ensures[C18] result1 == nil ==> result0 == fd.tables[tableName]
+//@   ensures[C18] result1 != nil ==> result0 == nil && typeis(result1, "*ddb2types.ResourceNotFoundException")
+
+// CreateTable: an existing name is refused with a resource-in-use error and nothing changes; otherwise exactly that
+// name is bound to a table object allocated by this call, which holds no item
+//@ func (*Client).CreateTable
+//@   partial
+//@   requires fd != nil && input != nil && fd.tables != nil
+//@   opaque (*Table).Description
+//@   ensures[C18] old((input.TableName == nil ? "" : *input.TableName) in fd.tables) ==> result1 != nil && typeis(result1, "*ddb2types.ResourceInUseException") && content(fd.tables) == old(content(fd.tables))
+//@   ensures[C18] result1 != nil ==> content(fd.tables) == old(content(fd.tables))
+//@   ensures[C18] result1 == nil ==> !old((input.TableName == nil ? "" : *input.TableName) in fd.tables) && dom(fd.tables) == with(old(dom(fd.tables)), old(input.TableName == nil ? "" : *input.TableName)) &&
+//@                fresh(fd.tables[old(input.TableName == nil ? "" : *input.TableName)]) && fd.tables[old(input.TableName == nil ? "" : *input.TableName)] != nil
+//@   ensures[C18] result1 == nil ==> len(fd.tables[old(input.TableName == nil ? "" : *input.TableName)].SortedKeys) == 0 && fresh(fd.tables[old(input.TableName == nil ? "" : *input.TableName)].Data)
+//@   ensures[C18] forall n string :: {fd.tables[n]} n != old(input.TableName == nil ? "" : *input.TableName) ==> fd.tables[n] == old(fd.tables[n]) && (n in fd.tables) == old(n in fd.tables)
+
+// DeleteTable: an unknown name changes nothing; a known one is unbound and no other binding changes
+//@ func (*Client).DeleteTable
+//@   partial
+//@   requires fd != nil && input != nil && fd.tables != nil
+//@   opaque (*Table).Description
+//@   ensures[C18] !old((input.TableName == nil ? "" : *input.TableName) in fd.tables) ==> result0 == nil && content(fd.tables) == old(content(fd.tables))
+//@   ensures[C18] old((input.TableName == nil ? "" : *input.TableName) in fd.tables) ==> result1 == nil && dom(fd.tables) == without(old(dom(fd.tables)), old(input.TableName == nil ? "" : *input.TableName))
+//@   ensures[C18] forall n string :: {fd.tables[n]} n != old(input.TableName == nil ? "" : *input.TableName) ==> fd.tables[n] == old(fd.tables[n]) && (n in fd.tables) == old(n in fd.tables)
+
+// DescribeTable describes the table bound to the name
+//@ func (*Client).DescribeTable
+//@   partial
+//@   requires fd != nil && input != nil
+//@   opaque (*Table).Description
+//@   callsite[C18] (*Table).Description: arg.t == fd.tables[old(input.TableName == nil ? "" : *input.TableName)] && arg.name == old(input.TableName == nil ? "" : *input.TableName)
+//@   ensures[C18] !old((input.TableName == nil ? "" : *input.TableName) in fd.tables) ==> result0 == nil
+//@   ensures[C18] content(fd.tables) == old(content(fd.tables))
+
+// a new client shares nothing with any other client
+//@ func NewClient
+//@   ensures[C18] fresh(result) && result != nil && fresh(result.tables) && result.tables != nil && len(result.tables) == 0 && result.forceFailureErr == nil
+//@   ensures[C18] fresh(result.nativeInterpreter) && fresh(result.langInterpreter)
+
+// ClearTable empties the table and every one of its indexes
+//@ func ClearTable
+//@   partial
+//@   requires typeis(client, "*Client") ==> client.(*Client) != nil && forall n string :: {client.(*Client).tables[n]} n in client.(*Client).tables ==> client.(*Client).tables[n] != nil &&
+//@            (forall m string :: {client.(*Client).tables[n].Indexes[m]} m in client.(*Client).tables[n].Indexes ==> client.(*Client).tables[n].Indexes[m] != nil)
+//@   callsite[C18] (*Table).Clear: arg.t == table
+//@   callsite[C18] (*index).Clear: arg.i == index
+
+// an error stays an error through the error mapper
+//@ func mapKnownError
+//@   partial
+//@   ensures[C18] err != nil ==> result != nil
